@@ -158,6 +158,9 @@ class SuperProxy:
 
     def lookup(self, attr):
         it = self.interp
+        st_ = it.stubs.get('super().' + attr)
+        if callable(st_):
+            return lambda *a, **k: st_(it, *a, **k)          # the rule stands in for the inherited method (a library base class)
         todo, seen = list(it.class_bases.get(self.cls, [])), set()
         unknown_base = False
         while todo:
@@ -1028,6 +1031,8 @@ class Interp:
         f = self.ev(e.func, env) if not isinstance(e.func, ast.Name) else None
         if isinstance(f, BoundMethod):
             base = f.base
+            if isinstance(e.func, ast.Attribute) and isinstance(e.func.value, ast.Name) and e.func.value.id == 'str' and not env.has('str') and f.attr == 'maketrans':
+                return str.maketrans(*args)
             if getattr(type(base), '_interp_safe', False) and hasattr(base, f.attr):
                 return getattr(base, f.attr)(*args, **kwargs)        # a stand-in object written by the rule itself
             if isinstance(base, re.Pattern) and f.attr in ('sub', 'subn'):
@@ -1036,7 +1041,7 @@ class Interp:
             for t, names in SAFE_METHODS.items():
                 if isinstance(base, t) and f.attr in names:
                     return getattr(base, f.attr)(*args, **kwargs)
-            if isinstance(base, ClassRef) and base.name == 'str' and f.attr in SAFE_METHODS[str]:
+            if isinstance(base, ClassRef) and base.name == 'str' and (f.attr in SAFE_METHODS[str] or f.attr == 'maketrans'):
                 return getattr(str, f.attr)(*args)
             if not isinstance(base, (Obj, ClassRef)) and not hasattr(base, f.attr):
                 raise Raised('AttributeError', e)       # what Python does: e.g. [].lower()
